@@ -81,4 +81,6 @@ UChar *udup(const ustr &s);                            // allocate with the shim
 ustr take(UChar *s);                                   // copy + release a library-returned string (NULL -> "")
 void ufree(void *p);                                   // release library-returned plain memory
 const char *code_name(int rc);
+// every CIF_NUMB_KIND value reachable in v has the value and su of a number freshly parsed from its own text (bitwise); "" or a description
+std::string numbers_consistent(cif_value_tp *v, const std::string &what, int depth = 0);
 } // namespace cm
